@@ -207,10 +207,10 @@ def finish(sc, st, res, V, nontrivial):
               'commands': cmds[:8], 'messages': len(inter)}
     if sc['config'].get('world') == 'gdb':
         return {'violations': V.list, 'counters': V.counters, 'nt_keys': [key] if nontrivial else [], 'inter_key': key,
-                'states': [], 'digest': res.rec.digest(), 'canon': res.rec.digest(canonical=True),
+                'states': sorted(getattr(V, 'states', ())), 'digest': res.rec.digest(), 'canon': res.rec.digest(canonical=True),
                 'sim_us': 0, 'evals': 1, 'sample': sample}
     return {'violations': V.list, 'counters': V.counters, 'nt_keys': [key] if nontrivial else [], 'inter_key': key,
-            'states': [], 'digest': res.rec.digest(), 'canon': res.rec.digest(canonical=True),
+            'states': sorted(getattr(V, 'states', ())), 'digest': res.rec.digest(), 'canon': res.rec.digest(canonical=True),
             'sim_us': st.world.now - st.world.epoch_us, 'evals': 1, 'sample': sample}
 
 
@@ -221,6 +221,7 @@ def execute(sc):
         st, res, tr, V0 = run_and_judge(sc, {'C06', 'C11'}, ID)
     V = common.Viol()
     V.counters = V0.counters
+    V.states = V0.states
     for v in V0.list:
         if v['sig'].startswith('C06/'):
             V.list.append(v)
